@@ -12,6 +12,8 @@ CONSTANTS
   OkSet = {TRUE}
   ForeignRefCheck = TRUE
   HeaderSetCheck = TRUE
+  Mutations = FALSE
+  CopyRule = "firstfree"
   ItemRefs = {0}
 INVARIANT PrintLeaf
 CHECK_DEADLOCK FALSE
